@@ -103,8 +103,8 @@ def run_one(ctx, desc):
     # ---- generated metadata
     mag = rng.choice([1e-3, 0.01, 0.1, 0.5, 1, 2, 2.5, 10, 1000.0, 3, 0.125, 7e-3])
     factor = mag * rng.choice([1, -1])
-    if factor == 1:
-        factor = 0.25
+    if (desc["cs"] // 3) % 4 == 0:
+        factor = rng.choice([1, 1.0, -1])          # the default factor: fractional requests must still round to nearest
     n_desc = rng.randint(1, 20)
     vals = set()
     while len(vals) < n_desc:
@@ -167,6 +167,51 @@ def run_one(ctx, desc):
             ctx.count("desc_checks")
             if v.accessor().desc != text:
                 ctx.violation("desc-read-wrong", f"raw {val} is described as {v.accessor().desc!r}, expected {text!r}", dict(case0, op="desc-read", value=val))
+        # ---- descriptions added after the first description write are usable too (tables grow over time)
+        od_var = v.accessor().od
+        extra_vals = [x for x in (lo, hi, 0, 1, 2, 3, 5, 7, 11, 13) if x not in descs][:3]
+        for j, val in enumerate(extra_vals):
+            text = f"Late entry {j}"
+            od_var.add_value_description(val, text)
+            ctx.count("desc_checks")
+            ctx.case((view, name, "desc-added-later"), nontrivial=True)
+            try:
+                v.accessor().desc = text
+                if v.stored_raw() != val or v.accessor().desc != text:
+                    ctx.violation("desc-added-later", f"description {text!r} added after earlier use: raw {v.stored_raw()}, expected {val}", dict(case0, op="desc-late", value=val))
+            except Exception as exc:  # noqa: BLE001
+                ctx.violation(f"desc-raised:{type(exc).__name__}", f"desc = {text!r} (added after earlier use) raised {exc!r}", dict(case0, op="desc-late", value=val))
+        # ---- one bits accessor held across several assignments
+        if maxbit >= 4:
+            for _ in range(10):
+                a1 = rng.randrange(0, maxbit - 2)
+                b1 = rng.randint(a1 + 1, maxbit - 1)
+                a2 = rng.randrange(b1, maxbit)
+                b2 = rng.randint(a2 + 1, maxbit)
+                f1, f2 = rng.randrange(1 << (b1 - a1)), rng.randrange(1 << (b2 - a2))
+                old = rng.choice([0, hi, rng.randint(lo, hi)])
+                case = dict(case0, op="bits-held-accessor", ranges=[(a1, b1), (a2, b2)], values=[f1, f2], old_raw=old)
+                ctx.case((view, name, "bits-held-accessor"), nontrivial=True)
+                try:
+                    v.accessor().raw = old
+                    acc = v.accessor().bits
+                    acc[list(range(a1, b1))] = f1
+                    acc[slice(a2, b2, 1)] = f2
+                    raw = v.stored_raw()
+                    back1, back2 = acc[list(range(a1, b1))], acc[list(range(a2, b2))]
+                except Exception as exc:  # noqa: BLE001
+                    ctx.violation(f"bits-raised:{type(exc).__name__}:held-accessor", f"two assignments through one bits accessor raised {exc!r}", case)
+                    continue
+                ctx.count("bits_checks")
+                u = old & ((1 << width) - 1)
+                for a, b, fv in ((a1, b1, f1), (a2, b2, f2)):
+                    m = ((1 << (b - a)) - 1) << a
+                    u = (u & ~m) | (fv << a)
+                want = u - (1 << width) if (lo < 0 and u >> (width - 1)) else u
+                if raw != want:
+                    ctx.violation("bits-held-accessor-lost-write", f"bits[{a1}:{b1}]={f1} then bits[{a2}:{b2}]={f2} through one accessor on raw {old:#x} gave {raw:#x}, expected {want:#x}", case)
+                if (back1, back2) != (f1, f2):
+                    ctx.violation("bits-held-accessor-stale-read", f"the accessor reads ({back1}, {back2}) after writing ({f1}, {f2})", case)
         # ---- bit fields
         ranges = [(a, b) for a in range(maxbit) for b in range(a + 1, maxbit + 1)]
         if not desc["full_ranges"]:
